@@ -337,6 +337,22 @@ def run(ctx):
         ctx.check(ok, "C20-R1b", fn.rsplit("::", 1)[1] + ":in_progress-before-descend", "in_progress.insert dominates the recursive descent",
                   "%s descends into its definition before registering it as in progress: a self-referential rule recurses forever" % fn, site=b.where())
 
+    # pointer-chasing loops terminate only if the structure they walk is acyclic: the union-find forest of the
+    # grammar optimiser (walked by `while let Some(q) = map[root]` in uf_find) stays acyclic because uf_union links a
+    # root only to a *different* root
+    GR = "llguidance::earley::grammar::"
+    uu = ctx.body(GR + "uf_union")
+    finds = uu.call_blocks(GR + "uf_find")
+    link = [bi for bi, t in uu.calls() if t["f"].get("def", "").endswith("Option::<T>::replace")]
+    link += [bi for bi, si, st in uu.statements() if st["s"] == "assign" and len(st["p"]) > 1 and any(isinstance(x, dict) and "i" in x for x in st["p"][1:])]
+    g = L.guard_edges_multi(uu, [(lambda e: e[0] == "call" and e[1].endswith("::ne"), True), (lambda e: e[0] == "bin" and e[1] == "Ne", True),
+                                 (lambda e: e[0] == "call" and e[1].endswith("::eq"), False), (lambda e: e[0] == "bin" and e[1] == "Eq", False)])
+    ok = len(finds) >= 2 and bool(link) and bool(g) and not L.dominated_by_cut(uu, link, g) and all(l not in uu.reachable(0, cut_blocks=[f]) for l in link for f in finds)
+    ctx.check(ok, "C20-R1b", "uf_union:links-distinct-roots",
+              "uf_union looks up both roots and links them only if they differ (the forest walked by uf_find stays acyclic)",
+              "uf_union can link a root to itself (or links before finding both roots): uf_find's `while let Some(q) = map[root]` then never "
+              "terminates — a grammar with a cycle of unit rules (a: b, b: a) hangs compilation", site=uu.where())
+
     # ------------------------------------------------------------------ R2 overflow census (json/numeric.rs)
     n_fn = 0
     for i, b in sorted(P.bodies.items()):
